@@ -13,4 +13,7 @@ def check(run):
                        "distinct_nontrivial = distinct (opcode, flags before, cycles) tuples", "C02")
 
 
+    cpu_common.rom_traces(run, "C02")
+
+
 replay = cpu_common.replay
